@@ -26,7 +26,10 @@ func reformatDescription(input string, maxWidth int) []string {
 		}
 		lastWasEmpty = false
 
-		words := strings.Split(line, " ")
+		// Fields, not Split: trailing or repeated spaces and tabs do not
+		// survive the trim of the output or the lexer reading it back, so
+		// they must not become words which count for the width.
+		words := strings.Fields(line)
 		for _, word := range words {
 			if pend == "" {
 				pend = word
